@@ -2,6 +2,7 @@ package concd
 
 import (
 	"fmt"
+	"sync"
 	"math/rand"
 	"sort"
 	"sync/atomic"
@@ -18,14 +19,31 @@ type span struct {
 	lo, hi int
 	calls  *int64
 	limit  int64
+	log    *sliceLog // where Slice records the bounds it was asked for
+	nilres bool      // chunks starting at an odd position return (nil, nil): still one result each
 }
 
-func (s span) Operation() (interface{}, error) { return [2]int{s.lo, s.hi}, nil }
+type sliceLog struct {
+	mu sync.Mutex
+	bs [][2]int
+}
+
+func (s span) Operation() (interface{}, error) {
+	if s.nilres && s.lo%2 == 1 {
+		return nil, nil
+	}
+	return [2]int{s.lo, s.hi}, nil
+}
 func (s span) Slice(i, j int) concurrent.Mapper {
 	if atomic.AddInt64(s.calls, 1) > s.limit {
 		select {} // runaway: park for ever, the watchdog reports it
 	}
-	return span{s.lo + i, s.lo + j, s.calls, s.limit}
+	if s.log != nil {
+		s.log.mu.Lock()
+		s.log.bs = append(s.log.bs, [2]int{s.lo + i, s.lo + j})
+		s.log.mu.Unlock()
+	}
+	return span{s.lo + i, s.lo + j, s.calls, s.limit, nil, s.nilres}
 }
 func (s span) Len() int { return s.hi - s.lo }
 
@@ -37,13 +55,15 @@ func MapCalls(w *vt.W, rng *rand.Rand, nrandom int, exhaustive bool) {
 			return
 		}
 		var calls int64
+		var sl sliceLog
+		nilres := (n+threads+maxChunk)%3 == 0
 		type ret struct {
 			res []interface{}
 			err error
 		}
 		ch := make(chan ret, 1)
 		go func() {
-			r, e := concurrent.Map(span{0, n, &calls, int64(10*n + 10)}, threads, maxChunk)
+			r, e := concurrent.Map(span{0, n, &calls, int64(10*n + 10), &sl, nilres}, threads, maxChunk)
 			ch <- ret{r, e}
 		}()
 		var res []interface{}
@@ -57,13 +77,26 @@ func MapCalls(w *vt.W, rng *rand.Rand, nrandom int, exhaustive bool) {
 				"err": fmt.Sprintf("Map did not return within 30 s (%d Slice calls)", atomic.LoadInt64(&calls)), "results": 0, "chunks": [][2]int{}})
 			return
 		}
-		chunks := [][2]int{}
+		// the chunks are what Map asked Slice for; every non-nil result must be one of them
+		sl.mu.Lock()
+		chunks := append([][2]int{}, sl.bs...)
+		sl.mu.Unlock()
+		sort.Slice(chunks, func(i, j int) bool { return chunks[i][0] < chunks[j][0] })
+		nonnil, seen := 0, map[[2]int]int{}
 		for _, r := range res {
 			if c, ok := r.([2]int); ok {
-				chunks = append(chunks, c)
+				nonnil++
+				seen[c]++
 			}
 		}
-		sort.Slice(chunks, func(i, j int) bool { return chunks[i][0] < chunks[j][0] })
+		for _, c := range chunks {
+			if !(nilres && c[0]%2 == 1) {
+				if seen[c] != 1 && err == nil {
+					err = fmt.Errorf("harness: chunk %v has %d results", c, seen[c])
+				}
+			}
+		}
+		_ = nonnil
 		w.Emit(vt.Ev{"op": "map", "n": n, "threads": threads, "maxchunk": maxChunk, "err": vt.ErrStr(err),
 			"results": len(res), "chunks": chunks})
 	}
